@@ -27,6 +27,15 @@ static int check_indices;
 
 static uint64_t fnv(const void *p, size_t n) { const unsigned char *b = p; uint64_t h = 1469598103934665603ULL; for (size_t i = 0; i < n; i++) { h ^= b[i]; h *= 0x100000001b3ULL; } return h; }
 
+/* what a handler hands back: usually a fresh token; in plans with the "handler.mix" knob every fifth call hands back NULL (the documented
+   convention for stateless contexts) and every seventh the state it was given -- "the state a handler returns is the state it receives
+   next" holds for those too */
+static int handler_mix;
+static unsigned long handler_result(unsigned long counter, unsigned long sin)
+{
+    if (handler_mix) { if (counter % 5 == 0) return 0; if (counter % 7 == 0) return sin; }
+    return counter;
+}
 static void *record(int h, spif_charptr_t buff, void *state)
 {
     rec_t *r;
@@ -43,7 +52,7 @@ static void *record(int h, spif_charptr_t buff, void *state)
     r->kind = buff[0] == SPIFCONF_BEGIN_CHAR ? 1 : buff[0] == SPIFCONF_END_CHAR ? 2 : 0;
     r->tlen = n; r->thash = fnv(buff, n);
     snprintf(r->text, sizeof(r->text), "%.90s", (const char *)buff);
-    r->sout = ++tok_counter;
+    r->sout = handler_result(++tok_counter, r->sin);
     return (void *)(uintptr_t)r->sout;
 }
 #define DEFH(i) static void *h##i(spif_charptr_t b, void *s) { return record(i, b, s); }
@@ -75,36 +84,42 @@ void conf_register(int count, int override_null)
 
 /* ------------------------------------------------------------------ reference dispatcher (DESIGN B.6) */
 static int ref_max_depth, ref_include_depth, ref_max_include;
+static int ref_overlong;
 static int ref_open_idx;        /* number of fopen attempts so far (fault script cursor) */
 static const op_t *ref_faults;
 static int ref_deliver_unterminated, ref_expanded, ref_entry_fs;
 static int ref_include_capped;
 static int ref_unknown, ref_surplus_end, ref_eof_nonl, ref_include_fail, ref_overlong, ref_unreadable, ref_empty_file;
 
+#define STATE_ANY (~0UL)
 static int ref_anytext;          /* the next reference call delivers a line whose text the statement leaves open (it is still delivered, once) */
 static unsigned long ref_call(int id, int kind, const char *text, unsigned long sin)
 {
     rec_t *r;
-    if (ctxh[id] < 0) return kind == 0 ? sin : 0;          /* built-in null context: BEGIN/END give NULL, text keeps the state */
+    if (ctxh[id] < 0) return STATE_ANY;          /* built-in null context: what its handler hands back is not stated -- whatever it is, it is what comes next */
     if (nwant >= MAXREC) sim_skip("too-many-handler-calls");
     r = &want[nwant++];
     r->h = ctxh[id]; r->kind = kind; r->sin = sin;
     r->tlen = strlen(text); r->thash = fnv(text, r->tlen);
     snprintf(r->text, sizeof(r->text), "%.90s", text);
     r->anytext = ref_anytext; ref_anytext = 0;
-    r->sout = ++tok_counter;
+    r->sout = handler_result(++tok_counter, sin);
     return r->sout;
 }
-static int ref_open_ok(void)
+/* what the fault script did to this open: asked of the simulated fopen's own record, by file and by how often the reference has opened
+   that file so far -- not by counting opens, whose number and order are the library's business (it may stat() first, or probe and reopen) */
+#define REFOPEN_MAX 64
+static struct { char name[160]; int n; } refopen[REFOPEN_MAX];
+static int nrefopen;
+static int ref_open_ok(const char *name)
 {
-    /* the k-th fopen of the run takes the k-th FC_OPEN entry of the parse op's fault script */
-    int k = 0;
-    for (int i = 0; i < ref_faults->nf; i++) {
-        if (F_CALL(ref_faults->f[i]) != FC_OPEN) continue;
-        if (k++ == ref_open_idx) { ref_open_idx++; return F_OUT(ref_faults->f[i]) != FO_FULL ? 0 : F_PARAM(ref_faults->f[i]) == 1 ? 2 : 1; }
-    }
+    int j = 0, how;
+    for (int i = 0; i < nrefopen; i++) if (!strcmp(refopen[i].name, name)) { j = refopen[i].n++; goto have; }
+    if (nrefopen < REFOPEN_MAX) { snprintf(refopen[nrefopen].name, sizeof(refopen[nrefopen].name), "%s", name); refopen[nrefopen].n = 1; nrefopen++; }
+have:
+    how = simfs_openlog_get(name, j);
     ref_open_idx++;
-    return 1;
+    return how < 0 ? 1 : how;           /* never opened by the library: nothing scripted can have hit it */
 }
 static char *ref_word2(const char *s)
 {
@@ -136,7 +151,7 @@ static void ref_line(char *s)
         while (*w && isspace((unsigned char)*w)) w++;
         if (!strncasecmp(w, "include ", 8)) {
             char *f = ref_word2(s + 1);
-            if (f && ref_entry_fs + 1 + ref_include_depth >= 255) { ref_include_fail++; ref_include_capped++; }      /* the 8-bit file index is used up: the directive is ignored, nothing is opened */
+            if (f && ref_entry_fs + 1 + ref_include_depth >= 255) sim_skip("include-chain-beyond-the-8-bit-index");      /* the statement stops at 255 files deep, as it does for contexts: what lies beyond is not compared */
             else if (f) { char fn[256]; snprintf(fn, sizeof(fn), "%s", f); ref_file(fn, 0); } else { ref_include_fail++; }
         }
         return;                       /* other %-lines are expanded for side effects only, never delivered */
@@ -182,7 +197,7 @@ static void ref_file(const char *path, int is_root)
     const unsigned char *data; size_t len, pos = 0;
     static char line[21000];
     int first = 1, how;
-    if (!(how = ref_open_ok())) { ref_include_fail++; return; }
+    if (!(how = ref_open_ok(path))) { ref_include_fail++; return; }
     if (!conf_tree_get(path, &data, &len)) { ref_include_fail++; return; }     /* absent, or a directory: nothing can be read from it */
     if (how == 2) { ref_include_fail++; ref_unreadable++; return; }              /* opened but unreadable: no first line, so rejected */
     if (!len) ref_empty_file++;
@@ -193,6 +208,13 @@ static void ref_file(const char *path, int is_root)
         while (e < len && data[e] != '\n') e++;
         if (e < len) { nl = 1; e++; }
         n = e - pos;
+        if (!first && n - (size_t)nl >= CONFIG_BUFF - 1) {
+            /* a line that does not fit the line buffer (20479 characters or more): reported and skipped as a whole -- not delivered, not
+               delivered in pieces, and the line after it is delivered as usual */
+            pos = e; ref_overlong++;
+            if (!nl) break;               /* (unterminated and over-long at once: nothing of it is a line) */
+            continue;
+        }
         if (n >= sizeof(line)) sim_skip("reference-line-too-long");
         memcpy(line, data + pos, n); line[n] = 0;
         pos = e;
@@ -301,7 +323,7 @@ static int compare_traces(const char *when)
             { if (compare_quiet) return 0; sim_fail("MISMATCH(dispatch)", "%s: handler call #%d went to handler %d as %s \"%.40s\", the reference delivers %s \"%.40s\" to handler %d", when, i, g->h, kn[g->kind], g->kind ? "" : g->text, kn[w->kind], w->kind ? "" : w->text, w->h); }
         if (g->kind == 0 && !w->anytext && (g->tlen != w->tlen || g->thash != w->thash))
             { if (compare_quiet) return 0; sim_fail("MISMATCH(line-text)", "%s: handler call #%d received \"%.60s\" (%zu chars), the reference line is \"%.60s\" (%zu chars)", when, i, g->text, g->tlen, w->text, w->tlen); }
-        if (g->sin != w->sin)
+        if (w->sin != STATE_ANY && g->sin != w->sin)
             { if (compare_quiet) return 0; sim_fail("MISMATCH(state-threading)", "%s: handler call #%d (%s) received state %lu, the state it must receive is %lu", when, i, kn[g->kind], g->sin, w->sin); }
     }
     if (ngot != nwant) { if (compare_quiet) return 0; sim_fail("MISMATCH(call-count)", "%s: %d handler calls were made, the reference makes %d (first extra/missing: %s \"%.40s\")", when, ngot, nwant,
@@ -313,9 +335,9 @@ static void run_reference(const char *name, op_t *o, int entry_ctx, int ng, unsi
 {
     unsigned long keep = tok_counter;
     ref_deliver_unterminated = deliver;
-    depth = entry_ctx; ref_faults = o; ref_open_idx = 0;
+    depth = entry_ctx; ref_faults = o; ref_open_idx = 0; nrefopen = 0;
     ref_max_depth = ref_max_include = ref_include_depth = 0;
-    ref_unknown = ref_surplus_end = ref_eof_nonl = ref_include_fail = ref_unreadable = ref_empty_file = ref_expanded = ref_include_capped = 0;
+    ref_unknown = ref_surplus_end = ref_eof_nonl = ref_include_fail = ref_unreadable = ref_empty_file = ref_expanded = ref_include_capped = ref_overlong = 0;
     ref_entry_fs = simacc_fstate_depth();
     nwant = ng;                      /* align the two traces for a second parse in the same run */
     for (int q = 0; q < ng; q++) want[q] = got[q];
@@ -335,6 +357,7 @@ static void exec_c09(const plan_t *p)
     spifconf_init_subsystem();
     check_indices = 1;
     strcpy(ref_magic, "<simrun-"); prog_on_heap = 0;
+    handler_mix = (int)plan_get(p, "handler.mix", 0);
     for (int i = 0; i < p->nops; i++) {
         op_t *o = (op_t *)&p->ops[i];
         const char *k = o->kind;
@@ -373,17 +396,21 @@ static void exec_c09(const plan_t *p)
                 unsigned long tok_at_entry = tok_counter;
                 int ng = ngot;
                 memcpy(stk_save, stk, sizeof(stk));
-                run_reference(name, o, entry_ctx, ng, tok_at_entry, 0);
+                simfs_openlog_reset();
                 if (plan_get(p, "altdir", 0)) { ret = (char *)spifconf_parse((spif_charptr_t)name, (spif_charptr_t)NULL, (spif_charptr_t)"/x:/cfg/alt"); probe_hit("root_found_through_search_path"); }
                 else if (o->a[0]) ret = (char *)spifconf_parse((spif_charptr_t)name, (spif_charptr_t)(o->a[0] == 2 ? "/cfg" : NULL), (spif_charptr_t)"/nonexistent:/cfg:/tmp");
                 else ret = (char *)spifconf_parse((spif_charptr_t)name, NULL, NULL);
                 tr_printf("parse %s -> %s calls=%d", name, ret ? ret : "NULL", ngot);
                 parse_ok = ret != NULL;
                 if (ret) sim_free(ret);
+                /* the reference follows (it reads the tree and the record of what the simulated fopen did to which file) */
+                { int ngot_after = ngot; ngot = ng; run_reference(name, o, entry_ctx, ng, tok_at_entry, 0); ngot = ngot_after; }
                 if (ref_eof_nonl) {
-                    /* a last line without a newline: accepted whether it is delivered or dropped, as long as the parse treats every such line the same way */
+                    /* a last line without a newline: accepted whether it is delivered or dropped, as long as the parse treats every such line the
+                       same way.  Which reading the library took shows in the calls it made -- and, where such a line reaches no recorded handler
+                       (an end, a begin of an unknown block), in the depth of the context stack it left */
                     compare_quiet = 1;
-                    if (!compare_traces("parse")) {
+                    if (!compare_traces("parse") || depth != simacc_ctx_depth()) {
                         memcpy(stk, stk_save, sizeof(stk));
                         run_reference(name, o, entry_ctx, ng, tok_at_entry, 1);
                         probe_hit("unterminated_last_line_delivered");
@@ -412,6 +439,7 @@ static void exec_c09(const plan_t *p)
             if (ref_expanded) probe_hit("delivered_value_was_expanded");
             if (ref_include_capped) probe_hit("include_refused_at_depth_255");
             if (ref_unreadable) probe_hit("file_opened_but_unreadable");
+            if (ref_overlong) probe_hit("overlong_line_skipped");
             if (ref_empty_file) probe_hit("empty_file");
             if (!balanced) probe_hit("unbalanced_input");
             sim_free(name);
@@ -423,7 +451,7 @@ static void exec_c09(const plan_t *p)
 
 /* ------------------------------------------------------------------ C09 generator */
 static size_t gbuf_len;
-static char gbuf[60000];
+static char gbuf[200000];
 static void gb_reset(void) { gbuf_len = 0; }
 static void gb_add(const char *fmt, ...)
 {
@@ -453,9 +481,9 @@ static void gen_text_line(rng_t *r)
     }
     else if (gen_longlines && rng_chance(r, 1, 6)) {
         /* a long ordinary line: 254..257, 4095..4097 or 20478 characters */
-        static const int ll[] = { 254, 255, 256, 257, 4095, 4096, 4097, 20478 };
-        int L = ll[rng_below(r, 8)];
-        if (L + lead > 20478) L = 20478 - lead;          /* (with the newline: exactly what one read of the line buffer takes; beyond that the line counts as too long) */
+        static const int ll[] = { 254, 255, 256, 257, 4095, 4096, 4097, 20478, 20479, 20480, 20490, 41000 };
+        int L = ll[rng_below(r, 12)];
+        if (L <= 20478 && L + lead > 20478) L = 20478 - lead;          /* (with the newline: exactly what one read of the line buffer takes; beyond that the line counts as too long and is skipped) */
         gb_add("%*s", lead, "");
         for (int i = 0; i < L && gbuf_len + 2 < sizeof(gbuf); i++) gbuf[gbuf_len++] = (char)('a' + i % 26);
         gb_add("\n");
@@ -481,6 +509,7 @@ static void gen_c09(plan_t *p, rng_t *r)
     if (regime == 1) { static const int d[] = { 9, 10, 11, 19, 20, 21, 39, 41, 79, 81, 159, 161, 200, 250, 253, 254, 255, 256 }; include_chain = d[rng_below(r, 18)]; }
     gen_expansions = rng_chance(r, 1, 5); gen_longlines = rng_chance(r, 1, 6);
     if (rng_chance(r, 1, 6)) plan_knob(p, "altdir", 1);
+    if (rng_chance(r, 1, 4)) plan_knob(p, "handler.mix", 1);
     nlines = rng_range(r, 3, 60);
     /* include chain: file k includes file k+1 (depth of the file stack) */
     for (int k = include_chain; k >= 1; k--) {
@@ -518,7 +547,7 @@ static void gen_c09(plan_t *p, rng_t *r)
     for (int q = 0; q < nlines; q++) {
         int c = (int)rng_below(r, 100);
         if (c < 40) gen_text_line(r);
-        else if (c < 58 && open_depth < 250) { gb_add("%sbegin %s%s%d%s\n", rng_chance(r, 1, 5) ? "  " : "", gen_gap(r), rng_chance(r, 1, 10) ? "nosuch" : rng_chance(r, 1, 15) ? "null" : "c", pick_ctx(r, nreg), rng_chance(r, 1, 6) ? " extra words" : ""); open_depth++; }
+        else if (c < 58 && open_depth < 250) { gb_add("%sbegin %s%s%d%s\n", rng_chance(r, 1, 5) ? "  " : "", gen_gap(r), rng_chance(r, 1, 10) ? "nosuch" : rng_chance(r, 1, 15) ? "null" : "c", rng_chance(r, 1, 12) ? nreg + rng_range(r, 1, 4) : pick_ctx(r, nreg)      /* (now and then a context that is not registered yet) */, rng_chance(r, 1, 6) ? " extra words" : ""); open_depth++; }
         else if (c < 76) { gb_add(rng_chance(r, 1, 4) ? "end junk here\n" : rng_chance(r, 1, 5) ? "  END\n" : "end\n"); if (open_depth) open_depth--; }
         else if (c < 82) gb_add("%s# a comment %d\n", rng_chance(r, 1, 3) ? (rng_chance(r, 1, 2) ? "  " : "\t") : "", q);
         else if (c < 86) gb_add(rng_chance(r, 1, 2) ? "\n" : "   \n");
@@ -542,6 +571,7 @@ static void gen_c09(plan_t *p, rng_t *r)
             const char *nm = names[rng_below(r, 5)], *v = vals[rng_below(r, 5)];
             o = plan_op(p, 0, "env", 1, (long)rng_chance(r, 1, 4)); op_str(o, nm, strlen(nm)); op_str2(o, v, strlen(v));
         }
+        if (nreg < 240 && rng_chance(r, 1, 3)) { int more = rng_range(r, 1, 6); plan_op(p, 0, "ctx", 2, (long)more, 0L); nreg += more; }      /* contexts are registered between two parses too: what was unknown the first time is known now */
         o = plan_op(p, 0, "parse", 1, 0L); op_str(o, "root.cfg", 8);
     }
     if (rng_chance(r, 1, 8)) {
